@@ -207,6 +207,7 @@ impl QCtx {
         }
     }
     pub fn item_begin(&mut self) {
+        crate::fuse::hit(crate::fuse::Cb::Body);
         self.cur = Item::default();
     }
     pub fn item_end(&mut self) {
@@ -394,6 +395,7 @@ impl ParCtx {
         }
     }
     pub fn item(&self) -> ParItem<'_> {
+        crate::fuse::hit(crate::fuse::Cb::Body);
         let n = self.seen.fetch_add(1, Ordering::Relaxed);
         if self.jitter > 0 && (n as u64) % self.jitter == 0 {
             if n % 3 == 0 {
